@@ -1,28 +1,184 @@
 package readline
 
 import (
+	"sort"
+
 	"github.com/reeflective/readline/internal/core"
+	"github.com/reeflective/readline/internal/keymap"
 	"github.com/reeflective/readline/internal/zzverif"
 )
 
-// zzSession prepares the checkpointed shell for one Readline call fed by script.
+var zzShell *Shell
+
+// ZZSetup_Shell builds the shell once; the resulting heap is the engine's checkpoint.
+// Natively (replay) it is called at the start of every harness run.
+func ZZSetup_Shell() {
+	zzShell = NewShell()
+}
+
+// ZZ_ListCommands returns every registered command name (sorted).
+func ZZ_ListCommands() []string {
+	ZZSetup_Shell()
+	var names []string
+	for name := range zzShell.Keymap.Commands() {
+		names = append(names, name)
+	}
+	sort.Strings(names)
+	return names
+}
+
+// zzSession prepares the shell for one Readline call fed by script.
 func zzSession(script *zzverif.Script) *Shell {
+	if !zzverif.Symbolic() || zzShell == nil {
+		ZZSetup_Shell()
+	}
 	rl := zzShell
 	core.Stdin = script
-	// the terminal answers cursor position queries with row 1, col 1
+	// the terminal answers every cursor position query with row 1, column 1
 	zzverif.StdinHook = func(buf []byte) (int, error) {
 		return copy(buf, []byte("\x1b[1;1R")), nil
 	}
 	return rl
 }
 
-func ZZ_Smoke_Readline() {
+// zzKeysFor returns the shortest (then lexicographically first) key sequence bound to cmd
+// in keymap km, binding a probe sequence first when there is none.
+func zzKeysFor(rl *Shell, km string, cmd string) string {
+	best := ""
+	for seq, bind := range rl.Config.Binds[km] {
+		if bind.Action != cmd || bind.Macro || seq == "" {
+			continue
+		}
+		if best == "" || len(seq) < len(best) || (len(seq) == len(best) && seq < best) {
+			best = seq
+		}
+	}
+	if best != "" {
+		return best
+	}
+	// unbound in this keymap: bind it to a probe sequence nothing else uses
+	for _, probe := range []string{"\x1c", "\x1d", "\x1e", "\x00"} {
+		if _, used := rl.Config.Binds[km][probe]; !used {
+			rl.Config.Bind(km, probe, cmd, false)
+			return probe
+		}
+	}
+	return ""
+}
+
+// zzArgKeys are the keys that enter a numeric argument in the given main keymap.
+func zzArgKeys(km string, arg string) string {
+	if arg == "" {
+		return ""
+	}
+	if km == keymap.ViCommand {
+		return arg
+	}
+	return "\x1b" + arg // M-<digit> / M--
+}
+
+// zzBuffer makes n symbolic runes over all Unicode scalar values.
+func zzBuffer(prefix string, n int) []rune {
+	rs := zzverif.Runes(prefix, n)
+	for _, r := range rs {
+		zzverif.Assume(zzverif.ValidRune(r))
+	}
+	return rs
+}
+
+func zzSameRunes(a, b []rune) bool {
+	if len(a) != len(b) {
+		return false
+	}
+	for i := range a {
+		if a[i] != b[i] {
+			return false
+		}
+	}
+	return true
+}
+
+// ZZ_Step: one inductive step. From an arbitrary editor state (buffer, cursor, mark, main
+// keymap, optional local context and numeric argument) one command, typed through its key
+// binding, runs inside the real Readline loop. Asserted at every later input wait: the
+// C06 invariants; at the final wait, buffer purity for commands listed as movements.
+//
+// params: mode, cmd, n, arg, prefix (keys typed before: local context), pure (1: assert
+// the buffer is unchanged), argbyte (1: the command reads a key, supply a symbolic one).
+func ZZ_Step() {
+	mode := zzverif.Param("mode")
+	cmd := zzverif.Param("cmd")
 	n := zzverif.ParamInt("n")
-	keys := zzverif.Bytes("k", n)
-	script := &zzverif.Script{Chunks: [][]byte{keys, []byte("\r")}}
+	arg := zzverif.Param("arg")
+	prefix := zzverif.Param("prefix")
+	pure := zzverif.Param("pure") == "1"
+
+	buf := zzBuffer("b", n)
+	script := &zzverif.Script{}
 	rl := zzSession(script)
-	line, err := rl.Readline()
+	wait := 0
+	inCmd := false
+	ranCmd := false
+	fedArg := false
+	var before []rune
+
+	script.OnWait = func() {
+		if wait == 0 {
+			wait++
+			rl.line.Set(buf...)
+			mark := zzverif.IntRange("mark", 0, n)
+			rl.cursor.Set(mark)
+			rl.cursor.SetMark()
+			rl.cursor.Set(zzverif.IntRange("pos", 0, n))
+			if mode != keymap.Emacs {
+				rl.Keymap.SetMain(mode)
+			}
+			if mode == keymap.ViCommand {
+				rl.cursor.CheckCommand()
+			}
+			before = append([]rune(nil), (*rl.line)...)
+			keys := zzKeysFor(rl, mode, cmd)
+			zzverif.Assume(keys != "")
+			// wrap the command to know whether a wait happens inside it
+			orig := rl.Keymap.Commands()[cmd]
+			rl.Keymap.Register(map[string]func(){cmd: func() {
+				inCmd = true
+				ranCmd = true
+				orig()
+				inCmd = false
+			}})
+			script.Chunks = [][]byte{[]byte(prefix + zzArgKeys(mode, arg) + keys)}
+			return
+		}
+		wait++
+		// invariants at every input wait
+		pos := rl.cursor.Pos()
+		length := rl.line.Len()
+		zzverif.Assert(pos >= 0 && pos <= length, "cursor-in-buffer")
+		if rl.selection.Active() {
+			bpos, epos := rl.selection.Pos()
+			zzverif.Assert(bpos >= 0 && bpos <= length && epos >= 0 && epos <= length, "selection-in-buffer")
+		}
+		if inCmd && !fedArg {
+			// the command asked for a key: hand it an arbitrary one
+			fedArg = true
+			script.Chunks = append(script.Chunks, []byte{zzverif.Byte("argkey")})
+			return
+		}
+		if script.Remaining() > 0 {
+			return
+		}
+		zzverif.Reach("final-wait")
+		if ranCmd {
+			zzverif.Reach("command-ran")
+		}
+		if rl.Keymap.Main() == keymap.ViCommand && !inCmd && length > 0 && !rl.cursor.OnEmptyLine() {
+			zzverif.Assert(pos < length, "vi-command-cursor-on-char")
+		}
+		if pure && !inCmd {
+			zzverif.Assert(zzSameRunes(before, *rl.line), "movement-keeps-buffer")
+		}
+	}
+	rl.Readline()
 	zzverif.Reach("returned")
-	_ = line
-	_ = err
 }
